@@ -16,7 +16,8 @@ import Tickit.Model.EvLoopMulti
   live IO watches; an IO watch is invoked exactly with the conditions reported for its descriptor,
   at most once, and never after it was cancelled.
 
-  A history leaves *valid usage* when it cancels a watch that is not live (already fired, cancelled)
+  A history leaves *valid usage* when it cancels a watch that is not live (already fired, cancelled;
+  except a timer or deferred callback cancelled from inside its own running callback, which must do nothing)
   or that belongs to another instance, or lets a signal with default action "terminate" reach the
   process unwatched; from then on every verdict is `""` (`misuse`).
 
@@ -292,6 +293,9 @@ def runActs (s : SSt) (evs : List PEv) : List Act → Except String (SSt × List
       match expectNotes s.c17 evs notes with
       | .error e => .error e
       | .ok evs => runActs s evs rest
+    | .cb k f _ :: _ =>
+      if f &&& EV_FIRE = 0 then .error s!"watch {k} got a notification (flags {f}) that nothing asked for"
+      else .error "harness: a callback did not announce its next action"
     | _ => .error "harness: a callback did not announce its next action"
 
 def fireActs (s : SSt) (k : Int) (evs : List PEv) : Except String (SSt × List PEv) :=
@@ -302,7 +306,15 @@ def fireActs (s : SSt) (k : Int) (evs : List PEv) : Except String (SSt × List P
     let s := upd s k fun w => { w with fires := w.fires + 1 }
     match s.behs.find? (fun b => b.k = k && b.n = n) with
     | none => .ok (s, evs)
-    | some b => runActs s evs b.acts
+    | some b =>
+      -- A timer or deferred callback that passes its own watch to tickit_watch_cancel while it runs: the loop has
+      -- taken it out of its queue and this very invocation (FIRE|UNBIND) is the unbind notification it asked for,
+      -- so the cancel is valid usage and must give it nothing more ("runs exactly once with the fire-and-unbind
+      -- flags", "gets only the unbind notification it asked for"): abstractly the action does nothing.
+      let oneShot := w.kind = .timer || w.kind = .later
+      runActs s evs (b.acts.map fun a => match a with
+        | .cancel k' => if oneShot && k' = k then .nop else a
+        | a => a)
 
 def stateName : WState → String
   | .live => "live" | .fired => "already run" | .cancelled => "cancelled" | .destroyed => "destroyed"
